@@ -56,6 +56,9 @@ class C11(Prop):
         ol = [o for o in ops if o[0] == "snappath"]
         if any(r[2].get("probe") == "0" for r in res):
             return self.skip("the probe no longer calls snapshotPath the way the library's entry points do (calibration failed)")
+        for r_ in res:
+            if r_[2].get("cfgsame") == "0":
+                fails.append({"msg": "snappath %s: resolving the location changed the Config (or the package defaults)" % r_[1]})
         if not (len(raws) == len(res) == len(ol)):
             return self.skip("guard")
         for raw, (_, idx, o), (n, kv) in zip(raws, res, ol):
